@@ -87,11 +87,150 @@ pub fn gen_stack_readers(r: &mut Rng) -> Vec<GRule> {
     rules
 }
 
+// ------------------------------------------------------------------------------------------------
+// operands that change the stack and then fail
+// ------------------------------------------------------------------------------------------------
+fn bx(e: GE) -> Box<GE> { Box::new(e) }
+fn idn(n: &str) -> GE { GE::Id(n.to_string()) }
+fn lit1(s: &str) -> GE { GE::Str(s.to_string()) }
+fn seq_of(v: Vec<GE>) -> GE { let mut it = v.into_iter().rev(); let mut acc = it.next().expect("non-empty sequence"); for x in it { acc = GE::Seq(bx(x), bx(acc)); } acc }
+
+/// the operands whose failure leaves the stack changed unless something restores it: a pop takes the entry off the stack BEFORE it
+/// compares it with the input; directly, pushed again, behind a rule call (`hp = { POP }`, `hq = _{ POP_ALL }`); DROP and PUSH(PEEK)
+/// as the neighbours that change the stack only when they succeed
+fn stack_operands() -> Vec<GE> {
+    use GE::*;
+    vec![idn("POP"), Push(bx(idn("POP"))), Push(bx(idn("hp"))), idn("hp"), Push(bx(idn("POP_ALL"))), idn("POP_ALL"), idn("hq"), Push(bx(idn("hq"))),
+         idn("DROP"), Push(bx(idn("PEEK")))]
+}
+/// can match the empty string on an empty stack (a repetition of it does not terminate)
+fn may_spin(e: &GE) -> bool { let mut spin = false; walk_ge(e, &mut |x| if let GE::Id(n) = x { if n == "POP_ALL" || n == "hq" || n == "PEEK_ALL" { spin = true; } }); spin }
+fn walk_ge(e: &GE, f: &mut dyn FnMut(&GE)) {
+    use GE::*;
+    f(e);
+    match e {
+        Pos(x) | Neg(x) | Opt(x) | Rep(x) | Rep1(x) | Push(x) | Roe(x) | RepX(x, _) | RepMin(x, _) | RepMax(x, _) | RepMM(x, _, _) | Tag(_, x) => walk_ge(x, f),
+        Seq(l, r) | Cho(l, r) => { walk_ge(l, f); walk_ge(r, f); }
+        _ => {}
+    }
+}
+fn stack_tails() -> Vec<Vec<GE>> {
+    vec![vec![idn("POP"), idn("POP")], vec![idn("PEEK_ALL")], vec![lit1("5"), idn("POP")], vec![GE::Slice(0, None), idn("EOI")], vec![idn("POP_ALL"), idn("EOI")], vec![idn("PEEK"), idn("DROP"), idn("PEEK")]]
+}
+fn wrap_operand(o: &GE, k: usize) -> Option<GE> {
+    use GE::*;
+    match k {
+        0 => Some(Opt(bx(o.clone()))),
+        1 => if may_spin(o) { None } else { Some(Rep(bx(o.clone()))) },
+        2 => Some(Cho(bx(o.clone()), bx(lit1("5")))),
+        _ => Some(Cho(bx(lit1("5")), bx(o.clone()))),
+    }
+}
+fn stack_helpers(tp: Ty, tq: Ty) -> Vec<GRule> { vec![GRule { name: "hp".into(), ty: tp, e: idn("POP") }, GRule { name: "hq".into(), ty: tq, e: idn("POP_ALL") }] }
+
+/// the restore-on-error differential: every stack-changing operand as the WHOLE operand of `?`, `*` and of either alternative of `|`
+/// (the places where the optimizer asks for restore_on_err), below two unequal stack entries, followed by stack readers, in normal and
+/// atomic rules (the generator has one emitter for each)
+pub fn restore_family() -> Vec<String> {
+    let mut rules: Vec<GRule> = vec![];
+    let tails = stack_tails();
+    let mut i = 0usize;
+    for o in stack_operands() {
+        for k in 0..4 {
+            let w = match wrap_operand(&o, k) { Some(w) => w, None => continue };
+            let mut v = vec![GE::Push(bx(lit1("x"))), GE::Push(bx(lit1("y"))), w];
+            v.extend(tails[(i / 2) % 2].iter().cloned());
+            rules.push(GRule { name: format!("r{}", i), ty: if i % 2 == 0 { Ty::Normal } else { Ty::Atomic }, e: seq_of(v) });
+            i += 1;
+        }
+    }
+    let mut out = vec![];
+    for chunk in rules.chunks(20) { let mut g = chunk.to_vec(); g.extend(stack_helpers(Ty::Normal, Ty::Silent)); out.push(pest_grammar(&g)); }
+    out
+}
+
+/// random members of the same family: 1-3 pushes, the operand alone / in a choice with a literal / pushed twice, any of the wrappers,
+/// an optional literal, any of the readers
+pub fn gen_failing_stack_change(r: &mut Rng) -> Vec<GRule> {
+    use GE::*;
+    let tys = [Ty::Normal, Ty::Normal, Ty::Atomic, Ty::Compound, Ty::NonAtomic, Ty::Silent];
+    let ops = stack_operands();
+    let tails = stack_tails();
+    let n = 2 + r.below(2) as usize;
+    let mut rules: Vec<GRule> = vec![];
+    for i in 0..n {
+        let lits = [["x", "y", "5"], ["y", "x", "x"], ["x", "5", "y"], ["xy", "x", "y"]][r.below(4) as usize];
+        let depth = 1 + r.below(3) as usize;
+        let mut o = ops[r.below(ops.len() as u64) as usize].clone();
+        match r.below(6) { 0 => o = Push(bx(o)), 1 => o = Push(bx(Cho(bx(o), bx(lit1("5"))))), _ => {} }
+        let w = match wrap_operand(&o, r.below(4) as usize) { Some(w) => w, None => Opt(bx(o)) };
+        let mut v: Vec<GE> = (0..depth).map(|k| Push(bx(lit1(lits[k])))).collect();
+        v.push(w);
+        if r.chance(1, 3) { v.push(Opt(bx(lit1(" ")))); }
+        v.extend(tails[r.below(tails.len() as u64) as usize].iter().cloned());
+        if i + 1 < n && r.chance(1, 4) { v.push(Opt(bx(idn(&format!("r{}", i + 1))))); }
+        rules.push(GRule { name: format!("r{}", i), ty: tys[r.below(6) as usize], e: seq_of(v) });
+    }
+    let hty = [Ty::Normal, Ty::Silent, Ty::Atomic, Ty::Compound];
+    rules.extend(stack_helpers(hty[r.below(4) as usize], hty[r.below(4) as usize]));
+    rules
+}
+
+// ------------------------------------------------------------------------------------------------
+// user rules named like built-ins
+// ------------------------------------------------------------------------------------------------
+const ASCII_CLASSES: [(&str, &[(char, char)]); 11] = [
+    ("ASCII_DIGIT", &[('0', '9')]), ("ASCII_NONZERO_DIGIT", &[('1', '9')]), ("ASCII_BIN_DIGIT", &[('0', '1')]), ("ASCII_OCT_DIGIT", &[('0', '7')]),
+    ("ASCII_HEX_DIGIT", &[('0', '9'), ('a', 'f'), ('A', 'F')]), ("ASCII_ALPHA_LOWER", &[('a', 'z')]), ("ASCII_ALPHA_UPPER", &[('A', 'Z')]),
+    ("ASCII_ALPHA", &[('a', 'z'), ('A', 'Z')]), ("ASCII_ALPHANUMERIC", &[('a', 'z'), ('A', 'Z'), ('0', '9')]), ("ASCII", &[('\x00', '\x7f')]),
+    ("NEWLINE", &[('\n', '\n'), ('\r', '\r')]),
+];
+/// the characters a built-in name stands for according to the documentation (only used to choose bodies for user rules of the same
+/// name that DIFFER from the built-in; nothing is compared with this table)
+fn documented_class(name: &str) -> Vec<(char, char)> {
+    if let Some((_, c)) = ASCII_CLASSES.iter().find(|(n, _)| *n == name) { return c.to_vec(); }
+    ranges(name).unwrap_or_default()
+}
+/// every name a grammar may both use as a built-in and define itself: the non-keyword built-ins and the Unicode properties of the table
+pub fn redefinable() -> Vec<&'static str> { NONKW_BUILTINS.iter().chain(UNICODE.iter()).cloned().collect() }
+
+/// the shadowing differential.  For every redefinable name N one grammar per variant that defines N as something DIFFERENT from the
+/// built-in (variant 0: a normal rule matching one member of the class - narrower, and it produces a token; variant 1: a silent rule
+/// matching a character outside the class) and has one rule per OTHER built-in (all ASCII_* names, NEWLINE, ANY, SOI, EOI, the Unicode
+/// properties) plus rules that use N itself.  Whatever a back-end does for a built-in K, it must not depend on the user's N.
+pub fn shadow_family(both: bool, seed: u64) -> Vec<String> {
+    let names = redefinable();
+    let mut out = vec![];
+    for (k, n) in names.iter().enumerate() {
+        let class = documented_class(n);
+        let inside = |c: char| class.iter().any(|(a, b)| *a <= c && c <= *b);
+        // one variant per name and run (alternating with the seed) in the quick tier, both in the thorough one
+        let variants: Vec<u8> = if both { vec![0, 1] } else { vec![((k as u64 + seed) % 2) as u8] };
+        for v in &variants {
+            let (ty, body) = if *v == 0 {
+                let c = ['0', '1', 'a', 'A', '\n', ' ', '+', '\u{e9}'].iter().cloned().find(|c| inside(*c)).unwrap_or_else(|| class.first().map(|x| x.0).unwrap_or('q'));
+                (Ty::Normal, GE::Str(c.to_string()))
+            } else {
+                let c = ['x', '5', '\u{e9}', ' ', '+'].iter().cloned().find(|c| !inside(*c)).unwrap_or('\u{1F600}');
+                (Ty::Silent, GE::Str(c.to_string()))
+            };
+            let mut g = vec![GRule { name: "self1".into(), ty: Ty::Normal, e: idn(n) }, GRule { name: "selfrep".into(), ty: Ty::Atomic, e: GE::Rep1(bx(idn(n))) }];
+            for u in ["ANY", "SOI", "EOI"].iter().chain(names.iter()) {
+                if u != n { g.push(GRule { name: format!("u_{}", u.to_lowercase()), ty: Ty::Normal, e: idn(u) }); }
+            }
+            g.push(GRule { name: n.to_string(), ty, e: body });
+            out.push(pest_grammar(&g));
+        }
+    }
+    out
+}
+
 pub fn gen_c02(r: &mut Rng, extras: bool) -> Vec<GRule> {
     // stack-heavy families: unequal stack entries below every kind of reader (the general stream rarely stacks two values)
     match r.below(12) {
         0 => { let mut g = gen_stack_readers(r); if r.chance(1, 3) { g.push(GRule { name: "WHITESPACE".into(), ty: Ty::Silent, e: GE::Str(" ".into()) }); } return g; }
         1 => return gen_stack_grammar(r, extras),
+        2 => { let mut g = gen_failing_stack_change(r); if r.chance(1, 4) { g.push(GRule { name: "WHITESPACE".into(), ty: Ty::Silent, e: GE::Str(" ".into()) }); } return g; }
         _ => {}
     }
     let cfg = GenCfg { stack: r.chance(1, 2), extras, counts: r.chance(1, 3), builtins: r.chance(1, 3) };
@@ -133,12 +272,16 @@ pub fn gen_c02(r: &mut Rng, extras: bool) -> Vec<GRule> {
         4 => g.push(GRule { name: "COMMENT".into(), ty: ty(r), e: cm_body(r) }),
         _ => {}
     }
+    // a user rule named like a non-keyword built-in is decided first: such grammars use the other built-ins (the ones that overlap the
+    // redefined name above all) in many more places, so that a back-end in which a built-in depends on the user's rule is seen
+    let shadow = n >= 2 && r.chance(1, 6);
     // every built-in, Unicode property names
-    if r.chance(1, 2) {
+    if shadow || r.chance(1, 2) {
         let mut rr = Rng::new(r.next());
+        let den = if shadow { 2 } else { 5 };
         for rule in g.iter_mut() {
             rule.e = map_ge(&rule.e, &mut |e| match e {
-                GE::Str(_) | GE::Range(_, _) if rr.chance(1, 5) => Some(GE::Id(match rr.below(3) {
+                GE::Str(_) | GE::Range(_, _) if rr.chance(1, den) => Some(GE::Id(match if shadow { rr.below(4) % 3 } else { rr.below(3) } {
                     0 => NONKW_BUILTINS[rr.below(11) as usize].to_string(),
                     1 => UNICODE[rr.below(5) as usize].to_string(),
                     _ => ["ANY", "SOI", "EOI", "ASCII_DIGIT", "NEWLINE"][rr.below(5) as usize].to_string(),
@@ -148,7 +291,7 @@ pub fn gen_c02(r: &mut Rng, extras: bool) -> Vec<GRule> {
         }
     }
     // a user rule named like a non-keyword built-in (ASCII_*, NEWLINE: hard-coded in the VM; Unicode names: not)
-    if n >= 2 && r.chance(1, 6) {
+    if shadow {
         let k = 1 + r.below(n as u64 - 1) as usize;
         let old = g[k].name.clone();
         let new = if r.chance(2, 3) { NONKW_BUILTINS[r.below(11) as usize].to_string() } else { UNICODE[r.below(5) as usize].to_string() };
@@ -259,6 +402,7 @@ fn main() {
             if arg(4) != "nofixed" {
                 for (_, x, text) in WITNESSES.iter() { if x.is_empty() || extras { tv_line(text, &mut w, &mut stats); } }
                 for text in PROBES.iter() { tv_line(text, &mut w, &mut stats); }
+                for text in restore_family().iter().chain(shadow_family(true, 0).iter()) { tv_line(text, &mut w, &mut stats); }
             }
             for _ in 0..count { let g = gen_c02(&mut rng, extras); tv_line(&pest_grammar(&g), &mut w, &mut stats); }
             writeln!(w, "#SUMMARY\tevaluations={}\tdistinct_nontrivial={}\trejected={}", stats.0, stats.2, stats.1).unwrap();
@@ -281,13 +425,13 @@ fn main() {
             // the source of a program that holds COUNT derive-generated parsers and compares each with pest_vm
             let count = arg_u64(2, 100); let mut rng = Rng::new(arg_u64(3, 0));
             // `batch COUNT SEED` = witnesses + probes + COUNT generated grammars; `batch 0 SEED FILE` = exactly the grammars of FILE (one per line, escaped)
-            let file = arg(4);
+            let file = if arg(4) == "-" { String::new() } else { arg(4) };
             let unesc = |l: &str| l.replace("\\n", "\n").replace("\\t", "\t").replace("\\\\", "\\");
             let around_mode = arg(5) == "around";
             let mut texts: Vec<String> = if around_mode {
                 let mut out = vec![];
                 let specs: Vec<c02_around::Spec> = std::fs::read_to_string(&file).expect("construct file").lines().filter_map(c02_around::parse_spec).collect();
-                let per = std::cmp::max(3, 16 / std::cmp::max(1, specs.len()));
+                let per = std::cmp::max(4, 32 / std::cmp::max(1, specs.len()));
                 for sp in &specs { c02_around::around(sp, extras, &mut out, per); }
                 out
             } else if !file.is_empty() {
@@ -298,9 +442,15 @@ fn main() {
             // the per-built-in differential: every name the VM hard-codes, alone and followed by a literal
             let builtin_texts: Vec<String> = if file.is_empty() && !extras { genread::FIXED_BUILTINS.iter().map(|n| format!("r0 = {{ {} }}\nr1 = {{ {} ~ \"x\" }}\n", n, n)).collect() } else { vec![] };
             texts.extend(builtin_texts.iter().cloned());
+            // the restore-on-error differential (both feature sets) and the shadowing differential (one grammar per redefinable name;
+            // `full` as 6th argument: both variants per name)
+            let restore_texts: Vec<String> = if file.is_empty() { restore_family() } else { vec![] };
+            texts.extend(restore_texts.iter().cloned());
+            let shadow_texts: Vec<String> = if file.is_empty() && !extras { shadow_family(arg(6) == "full", arg_u64(3, 0)) } else { vec![] };
+            texts.extend(shadow_texts.iter().cloned());
             let lit_mode = arg(5) == "lit";
             let mode_of = |t: &str| -> u8 {
-                if around_mode { 4 } else if lit_mode { 3 } else if builtin_texts.iter().any(|b| b == t) { 1 }
+                if around_mode { 4 } else if lit_mode { 3 } else if builtin_texts.iter().any(|b| b == t) { 1 } else if shadow_texts.iter().any(|b| b == t) { 5 }
                 else if ["NEWLINE", "ANY", "ASCII"].iter().any(|k| t.contains(k)) || UNICODE.iter().any(|k| t.contains(k)) { 2 } else { 0 }
             };
             texts.retain(|t| derive_tokens(t).ok().and_then(|ts| syn::parse2::<syn::File>(ts).ok()).is_some());
@@ -318,6 +468,8 @@ fn main() {
                 texts.push(text);
             }
             writeln!(w, "// GENERATED by `c02 batch` - {} grammars, extras={}", texts.len(), extras).unwrap();
+            writeln!(w, "// FAMILIES restore_on_error={} shadowing={} per_builtin={}", texts.iter().filter(|t| restore_texts.contains(t)).count(),
+                texts.iter().filter(|t| shadow_texts.contains(t)).count(), texts.iter().filter(|t| builtin_texts.contains(t)).count()).unwrap();
             writeln!(w, "#![allow(warnings)]\nuse pest::Parser;").unwrap();
             for (i, t) in texts.iter().enumerate() {
                 writeln!(w, "mod g{} {{ #[derive(pest_derive::Parser)] #[grammar_inline = {}] pub struct P; }}", i, rust_str(t)).unwrap();
